@@ -72,7 +72,7 @@ class Result:
         fatal = [s for s in self.san if s["fatal"]]
         if fatal:
             return ("sanitizer", fatal[0]["key"])
-        if self.timeout:
+        if self.timeout or self.sig == 24:   # wall watchdog, or SIGXCPU from the CPU limit
             return ("timeout",)
         if self.sig is not None:
             return ("signal", self.sig)
